@@ -278,6 +278,24 @@ def run_case(case, res):
             res.violation(f'{variant} {q}({order}) [singles={singles}] = {val} != '
                           f'explicit series coefficient {exp} (mod {p}) on model '
                           f'{case["dims"]}')
+            return
+        # complex-conjugation symmetry: <Psi|Psi> (and 1/<Psi|Psi>) are real, so
+        # the expression is invariant under t <-> t^cc. Checked in a model with
+        # independent random t and t^cc tensors (the explicit reference is real and
+        # can not see a lost complex-conjugate partner).
+        names = {f't{k_}' for k_ in range(1, order + 2)}
+        swap = {n_: n_ + 'cc' for n_ in names}
+        swap.update({n_ + 'cc': n_ for n_ in names})
+        m_a = tm.Model(n_o, n_v, seed=mseed + 17, p=p)
+        m_b = tm.Model(n_o, n_v, seed=mseed + 17, p=p, alias=swap)
+        va = int(tm.Evaluator(m_a).value(expr, []))
+        vb = int(tm.Evaluator(m_b).value(expr, []))
+        res.count('conjugation_checks')
+        if va != vb:
+            res.violation(f'{variant} {q}({order}) [singles={singles}] is not '
+                          f'invariant under complex conjugation of the amplitudes '
+                          f'(t <-> t^cc): {va} vs {vb} with independent random t, '
+                          f't^cc tensors')
         return
     if q == 'ev':
         kp = case['k']
